@@ -143,6 +143,20 @@ def _terminates(body: list[ast.stmt]) -> bool:
     return False
 
 
+def _nested_exit_test(st: ast.If):
+    """`if a: if b: <terminating block>` (no else anywhere, nothing else in the outer bodies) leaves exactly when
+    `a and b` holds: the combined test, or None when `st` is not of that shape (a plain `if a: <exit>` included)."""
+    tests = [st.test]
+    cur = st
+    while not cur.orelse and len(cur.body) == 1 and isinstance(cur.body[0], ast.If):
+        cur = cur.body[0]
+        tests.append(cur.test)
+    if len(tests) < 2 or cur.orelse or not _terminates(cur.body):
+        return None
+    # a walrus in an inner test binds only when the outer tests held: the conjunction has the same evaluation order
+    return ast.copy_location(ast.BoolOp(op=ast.And(), values=tests), st)
+
+
 def guards_of(fn: ast.AST, target: ast.AST) -> list[tuple[ast.expr, bool]]:
     """Conditions the evaluation of `target` is (syntactically) control dependent on inside fn:
     (test, True)  — target is in the true branch of `if test` / `while test` / `assert test` passed,
@@ -179,7 +193,10 @@ def guards_of(fn: ast.AST, target: ast.AST) -> list[tuple[ast.expr, bool]]:
                     # earlier siblings that are terminating ifs / asserts
                     for prev in blk[:i]:
                         if isinstance(prev, ast.If):
-                            if _terminates(prev.body) and not _terminates(prev.orelse):
+                            nested = _nested_exit_test(prev)
+                            if nested is not None:
+                                out.append((nested, False))
+                            elif _terminates(prev.body) and not _terminates(prev.orelse):
                                 out.append((prev.test, False))
                             elif prev.orelse and _terminates(prev.orelse) and not _terminates(prev.body):
                                 out.append((prev.test, True))
